@@ -45,12 +45,15 @@ func c14Gen(t *rapid.T) c14Case {
 	n := rapid.IntRange(0, 5).Draw(t, "nops")
 	budget := 9 << 20
 	for i := 0; i < n; i++ {
-		kind := rapid.SampledFrom([]string{"o", "e", "o", "e", "O", "E", "co", "ce", "sleep", "or", "er", "po", "pe"}).Draw(t, "op")
+		kind := rapid.SampledFrom([]string{"o", "e", "o", "e", "O", "E", "co", "ce", "sleep", "or", "er", "po", "pe", "ol", "el"}).Draw(t, "op")
 		switch kind {
 		case "co", "ce":
 			c.Ops = append(c.Ops, kind)
 		case "sleep":
 			c.Ops = append(c.Ops, "sleep:"+strconv.Itoa(rapid.IntRange(1, 30).Draw(t, "ms")))
+		case "ol", "el":
+			// many small writes: the volume is small, the number of pieces is not
+			c.Ops = append(c.Ops, kind+":"+strconv.Itoa(rapid.SampledFrom([]int{10, 2047, 2049, 3000, 5000}).Draw(t, "nlines")))
 		default:
 			var size int
 			if rapid.IntRange(0, 3).Draw(t, "randsize") == 0 {
@@ -113,6 +116,20 @@ func c14Expect(c c14Case) (stdout, stderr []byte, exit int, signalled bool, writ
 				stderr = append(stderr, hx.EmitPatternCR(n)...)
 			} else {
 				stderr = append(stderr, hx.EmitPattern(n, parts[0] == "E")...)
+			}
+		case "ol":
+			n, _ := strconv.Atoi(parts[1])
+			if outOpen {
+				stdout = append(stdout, hx.EmitLines(n)...)
+			} else {
+				writesAfterClose = writesAfterClose || n > 0
+			}
+		case "el":
+			n, _ := strconv.Atoi(parts[1])
+			if errOpen {
+				stderr = append(stderr, hx.EmitLines(n)...)
+			} else {
+				writesAfterClose = writesAfterClose || n > 0
 			}
 		case "po":
 			// the stream opened again by path: the same pipe, so the bytes follow what was written before
